@@ -830,6 +830,10 @@ func init() {
 						}
 					}
 				}
+				if !found && setByBinaryRead(c, parse, ft.Obj(), f) {
+					r.ok(key, "parseFooter", c.pos(parse.Pos()), "field is read from the file (binary.Read into its address, big-endian)")
+					continue
+				}
 				if found && notDecoded != "" {
 					r.bad(key, "parseFooter", c.pos(parse.Pos()), "footer field "+f+" is assigned a value that is not decoded from the file ("+notDecoded+"): the loaded segment would report and re-persist something the file does not say")
 					continue
@@ -906,4 +910,45 @@ func constIntOf(k *types.Const) (int64, bool) {
 		return 0, false
 	}
 	return constantInt64(k)
+}
+
+// setByBinaryRead: parse fills field f of the struct by binary.Read(r,
+// binary.BigEndian, &x.f) - directly, or in a loop over a layout table (an
+// in-package function that lists the addresses of the struct's fields)
+// that parse calls.
+func setByBinaryRead(c *Ctx, parse *ssa.Function, owner *types.TypeName, f string) bool {
+	reads := callsOfFull(parse, "encoding/binary.Read")
+	if len(reads) == 0 {
+		return false
+	}
+	for _, rd := range reads {
+		if g, ok := rd.Call.Args[1].(*ssa.MakeInterface); !ok || !strings.Contains(g.X.String(), "BigEndian") && !strings.Contains(exprSig(g.X, 0), "BigEndian") {
+			return false
+		}
+	}
+	listsField := func(fn *ssa.Function) bool {
+		for _, b := range fn.Blocks {
+			for _, ins := range b.Instrs {
+				mi, ok := ins.(*ssa.MakeInterface)
+				if !ok {
+					continue
+				}
+				if fa, ok := mi.X.(*ssa.FieldAddr); ok {
+					if o, fv := fieldAddrInfo(fa); o != nil && fv != nil && o.Obj() == owner && fv.Name() == f {
+						return true
+					}
+				}
+			}
+		}
+		return false
+	}
+	if listsField(parse) {
+		return true
+	}
+	for _, h := range staticCallees(parse) {
+		if c.inRoot(h) && h.Blocks != nil && listsField(h) {
+			return true
+		}
+	}
+	return false
 }
